@@ -39,7 +39,7 @@ Lemma step_inv s o : Inv s -> op_ok s o -> Inv (step s o).
 Proof.
   intros (Hq & Ho & Hs & Hf0 & Hf1 & Hf2) Hok.
   assert (HI : Inv s) by (apply mkInv; assumption).
-  destruct o as [k|n|n a|n c| | |n|n|]; simpl in *.
+  destruct o as [k|n|n a|n c| | |n|n| |v]; simpl in *.
   - (* Append *)
     apply mkInv; cbn [appended qack opened stored ifloor]; auto; [lia| |].
     + intros m g Hin. pose proof (Ho _ _ Hin) as Hx. unfold gok in *. lia.
@@ -92,6 +92,11 @@ Proof.
     apply mkInv; cbn [appended qack opened stored ifloor]; auto; [|intros ? ? []].
     intros m g' Hin. apply in_map_iff in Hin as ([k g0] & E & Hin0). inversion E; subst.
     apply load_ok; auto. apply in_app_or in Hin0 as [H|H]; [exact (Ho _ _ H)|exact (Hs _ _ H)].
+  - (* SetAppended: the explicit reset *)
+    destruct Hok as (Hv & Hst & Hi1 & Hi2).
+    apply mkInv; cbn [appended qack opened stored ifloor]; auto; try lia.
+    + intros m g' Hin. apply in_map_iff in Hin as ([k g0] & E & _). inversion E; subst. unfold gok; simpl. lia.
+    + intros m g' Hin. pose proof (Hs _ _ Hin) as Hg. specialize (Hst _ _ Hin). unfold gok in *. lia.
 Qed.
 
 Lemma init_inv : Inv init.
@@ -128,9 +133,9 @@ Proof.
 Qed.
 
 (* the queue-wide ack only moves forward; when it moves it is at most every existing group's ack and at most appended *)
-Theorem queue_ack_monotone s o : qack s <= qack (step s o).
+Theorem queue_ack_monotone s o : is_reset o = false -> qack s <= qack (step s o).
 Proof.
-  destruct o as [k|n|n a|n c| | |n|n|]; cbn [step]; try (cbn [qack]; lia).
+  intros Hr. destruct o as [k|n|n a|n c| | |n|n| |v]; [| | | | | | | | |discriminate Hr]; cbn [step]; try (cbn [qack]; lia).
   - destruct (lookup n (opened s)); [destruct (consumed g + 1 <=? appended s)|]; simpl; lia.
   - destruct (lookup n (opened s)); [destruct ((gack g <=? a) && (a <=? consumed g))|]; simpl; lia.
   - destruct (lookup n (opened s)); simpl; lia.
